@@ -22,6 +22,7 @@
 
 #  include <unifex/exception.hpp>
 #  include <unifex/scope_guard.hpp>
+#include <unifex/detail/verif_hooks.hpp>
 
 #  include "io_uring_syscall.hpp"
 
@@ -405,6 +406,7 @@ void io_uring_context::run_impl(const bool& shouldStop) {
     // Dequeue and process local queue items (ready to run)
     execute_pending_local();
 
+    UNIFEX_VERIF_YIELD("io.ur.loop");
     if (shouldStop) {
       break;
     }
@@ -456,6 +458,7 @@ void io_uring_context::run_impl(const bool& shouldStop) {
           minCompletionCount,
           pending_operation_count());
 
+      UNIFEX_VERIF_YIELD("io.ur.enter");
       int result = io_uring_enter(
           iouringFd_.get(),
           sqUnflushedCount_,
@@ -498,6 +501,7 @@ void io_uring_context::schedule_local(operation_queue ops) noexcept {
 
 void io_uring_context::schedule_remote(operation_base* op) noexcept {
   bool ioThreadWasInactive = remoteQueue_.enqueue(op);
+  UNIFEX_VERIF_YIELD("io.ur.enqueued");
   if (ioThreadWasInactive) {
     // We were the first to queue an item and the I/O thread is not
     // going to check the queue until we signal it that new items
@@ -590,6 +594,7 @@ void io_uring_context::acquire_completion_queue_items() noexcept {
 
         // Skip processing this item and let the loop check
         // for the remote-queued items next time around.
+        UNIFEX_VERIF_YIELD("io.ur.woken");
         remoteQueueReadSubmitted_ = false;
         continue;
       } else if (cqe.user_data == timer_user_data()) {
